@@ -364,6 +364,7 @@ def main(argv=None):
             print(f"KNOWN-FINDING: property={mod.PROP} {k['what']} [{fid}; {sum(m['runs'] for m in mine)} runs, "
                   f"{len(mine)} signatures, first run {min(m['first_run'] for m in mine)}]")
         vio_out = []
+        unreproduced = []
         rc = 0
         for n_done, (sig, e) in enumerate(unknown):
             # a violation counts only once its replay file reproduces it in a fresh interpreter.  State that the
@@ -390,14 +391,18 @@ def main(argv=None):
                 if ok:
                     break
             if not ok:
-                print(txt)
-                print(f"HARNESS-ERROR property={mod.PROP} no replay of {sig} reproduces in a fresh interpreter "
-                      f"(runs tried: {e.get('some')}); the failure depends on state carried between runs of one process")
-                return 2
+                unreproduced.append(sig)
+                print(f"unreproduced: {sig} in {e['runs']} runs (tried {e.get('some')}): no replay reproduces it in a fresh "
+                      f"interpreter - the failure depends on state the code under test carries between runs of one process")
+                continue
             print(f"violation {sig} in {e['runs']} runs (first run {e['first']}): {msg}")
             print(f"VIOLATION property={mod.PROP} replay={path}")
             vio_out.append({"signature": sig, "runs": e["runs"], "first_run": e["first"], "replay": path})
             rc = 1
+        if unreproduced and rc == 0:
+            # nothing confirmed, but runs failed in a way that cannot be replayed alone: neither a pass nor a violation
+            print(f"HARNESS-ERROR property={mod.PROP} only unreproducible failures: {unreproduced[:5]}")
+            return 2
         if not a.no_evidence:
             write_evidence(mod, a.tier, seed, results, agg, wall, vio_out, known_lines, selftest)
         n = len(results)
